@@ -82,8 +82,16 @@ def run_case(case):
 
     as_np = bool(case.get("np"))          # numbers are handed over as numpy scalars (np.float64 / np.int64): numbers all the same
 
+    arr0 = bool(case.get("arr0"))          # numbers are handed over as zero-dimensional numpy arrays, the SAME array object for equal values
+    shared_arrays = {}                     # (two axes, two agents): numbers all the same - a move of one coordinate moves nothing else
+
     def num(v):
         """case value -> (number handed to ECAgent, exact Fraction)"""
+        if arr0:
+            plain, fr = (int(v) / 8.0, Fraction(int(v), 8)) if (cont and exact) else ((float(v), Fraction(float(v))) if cont else (int(v), Fraction(int(v))))
+            if plain not in shared_arrays:
+                shared_arrays[plain] = np.array(plain)
+            return shared_arrays[plain], fr
         if cont:
             if exact:
                 return (np.float64(int(v) / 8.0) if as_np else int(v) / 8.0), Fraction(int(v), 8)
@@ -122,7 +130,7 @@ def run_case(case):
 
     def actual(i):
         pc = agents[i][PositionComponent]
-        return None if pc is None else pc.xyz()
+        return None if pc is None else tuple(c.item() if isinstance(c, np.ndarray) and c.ndim == 0 else c for c in pc.xyz())
 
     def check_all(where):
         for i, a in enumerate(agents):
@@ -260,6 +268,17 @@ def run_case(case):
                 env.remove_agent(f"a{i}")
             del pos[i]
             labels.add("removed")
+        elif kind_op == "use":
+            # the world's other services in between: positional queries, listings the caller edits, random picks
+            got_ = env.get_agents_at(0, 0, 0, 1)
+            if isinstance(got_, list):
+                got_.clear()
+            env.get_agents_at(x_pos=0, leeway=0)
+            lst_ = env.get_agents()
+            if isinstance(lst_, list):
+                lst_.reverse()
+            env.get_random_agent()
+            labels.add("other-services-used")
         else:
             raise InvalidCase(op)
         if decoy is not None and dext[0] > 0:
@@ -274,6 +293,8 @@ def run_case(case):
         labels.add("second-world-alive")
     if as_np:
         labels.add("numpy-scalars")
+    if arr0:
+        labels.add("numpy-0d-arrays-shared")
     labels.add(f"call-{style}")
     labels.update([kind, "wrap" if wrap else "clamp", "exact" if exact else "float"])
     if any(e == 0 for e in ext):
@@ -328,8 +349,10 @@ def strategy(tier):
         ops = []
         n = draw(wone_of(st.integers(1, 30), st.integers(1, 30), st.integers(1, 30), st.integers(1, 30), st.integers(60, 160)))
         for _ in range(n):
-            kind_op = draw(st.sampled_from(["add", "add", "move", "move", "move", "move", "move_to", "move_to", "remove"]))
-            if kind_op == "add":
+            kind_op = draw(st.sampled_from(["add", "add", "move", "move", "move", "move", "move_to", "move_to", "remove", "use"]))
+            if kind_op == "use":
+                ops.append({"op": "use"})
+            elif kind_op == "add":
                 ops.append({"op": "add", "a": draw(a), "pos": [coord(0), coord(1), coord(2)]})
             elif kind_op == "move":
                 ops.append({"op": "move", "a": draw(a), "d": [delta(0), delta(1), delta(2)]})
@@ -337,7 +360,7 @@ def strategy(tier):
                 ops.append({"op": "move_to", "a": draw(a), "pos": [coord(0), coord(1), coord(2)]})
             else:
                 ops.append({"op": "remove", "a": draw(a)})
-        return {"kind": kind, "ext": ext, "wrap": wrap, "num": "exact" if exact else "float", "ops": ops, "decoy": draw(st.integers(0, 3)) == 0, "np": draw(st.integers(0, 4)) == 0, "call": draw(st.sampled_from(["pos", "pos", "kw", "short", "alias"]))}
+        return {"kind": kind, "ext": ext, "wrap": wrap, "num": "exact" if exact else "float", "ops": ops, "decoy": draw(st.integers(0, 3)) == 0, "np": draw(st.integers(0, 4)) == 0, "call": draw(st.sampled_from(["pos", "pos", "kw", "short", "alias"])), "arr0": draw(st.integers(0, 7)) == 0}
     return with_done(case())
 
 
